@@ -73,6 +73,20 @@ def run(ctx):
         for lv in len_vars:
             ev.env[lv] = n
         ev.env['len(%s)' % str_var] = n
+        # statements in front of the dispatch (tables looked up by width, ...)
+        top = branch
+        while getattr(top, '_parent', None) is not fn and getattr(top, '_parent', None) is not None:
+            top = top._parent
+        if top in fn.body:
+            for st in fn.body[:fn.body.index(top)]:
+                if isinstance(st, (ast.Assign, ast.AnnAssign, ast.If)) and not any(
+                        isinstance(x, (ast.Raise, ast.Return)) for x in ast.walk(st)):
+                    try:
+                        ev.step(st)
+                    except Exception:      # a statement the folder cannot model
+                        pass
+                    for lv in len_vars:
+                        ev.env[lv] = n
         ev.run([s for s in branch.body if isinstance(s, ast.Assign)])
         return ev.env
 
